@@ -70,8 +70,9 @@ def closed_form_case(kind, N, M):
                     for e in xs:
                         u = -a * e + a * mean
                         c.assume(api.ge(api.exp(u), 1 + u))
-                c.check("min <= cash <= max [%d] (exponential form)" % j,
-                        api.all_(api.le(e_cash, api.exp(-a * api.minv(*xs))), api.ge(e_cash, api.exp(-a * api.maxv(*xs)))))
+                # exp(-a .) is decreasing: exp(-a min x) = max_i exp(-a x_i), exp(-a max x) = min_i exp(-a x_i)
+                es = [api.exp(-a * e) for e in xs]
+                c.check("min <= cash <= max [%d] (exponential form)" % j, api.all_(api.le(e_cash, api.maxv(*es)), api.ge(e_cash, api.minv(*es))))
                 c.check("cash <= mean [%d] (exponential form)" % j, api.ge(e_cash, api.exp(-a * mean)))
         if N > 1:
             xs = [elem(pl, i, 0) if M else elem(pl, i) for i in range(N)]
